@@ -1,0 +1,15 @@
+//go:build verif
+
+// Contracts for package fsext, read by /verif/bin/gvc (contract-based deductive verification).
+// This file contains comments only; it is compiled only under the build tag "verif".
+package fsext
+
+// ---- C06 / C09: one file, one spelling -----------------------------------------------------------------------
+// The location of a Taskfile is the identity of its vertex in the include graph and half of the key of a
+// run: once task. Every path the search hands back went through filepath.Abs (absolute AND lexically clean), so
+// the same file reached through different spellings (relative, "a/../b", a trailing slash) is the same Taskfile.
+//@ ghost var absOut string scratch
+//@ func SearchPath
+//@   init absOut := ""
+//@   site filepath.Abs#0 ghost absOut := result.0
+//@   ensures result.1 == nil ==> result.0 == absOut                                                            [C06,C09,C08]
